@@ -1009,6 +1009,11 @@ def _anc_nodes(node, stop):
 _STRUCTURAL_EDITS = {"append", "extend", "insert_after", "insert_before", "remove", "register_initializer"}
 
 
+# helpers this rule has to see as calls (E1b leaves functions whose names are mentioned in the rule modules unexpanded): the
+# uniqueness functions of the pass modules take the graph whose names they consult as their first argument
+_UNIQUENESS_FUNCTIONS_KEPT_AS_CALLS = ("_unique_value_name", "_unique_node_name")
+
+
 def rule_r13(ctx):
     from .c14 import _has_uniqueness_loop
 
@@ -1178,13 +1183,20 @@ def rule_r15(ctx):
                         and isinstance(st.value, ast.Attribute) and st.value.attr == "name" and isinstance(st.targets[0].value, ast.Name)):
                     continue
                 a = st.targets[0].value.id
+
+                def _defs_of(nm, depth=0):
+                    # definitions of a local, through plain aliases (`x = y` left behind by an expanded helper that returns several values)
+                    ds = [d.value for d in own_nodes(f.node) if isinstance(d, ast.Assign) and any(isinstance(t, ast.Name) and t.id == nm for t in d.targets)]
+                    if len(ds) == 1 and isinstance(ds[0], ast.Name) and depth < 4:
+                        return _defs_of(ds[0].id, depth + 1)
+                    return ds
+
                 # the survivor was made by the pass itself (an output of a node it has just built, a new Value)
-                defs = [d.value for d in own_nodes(f.node) if isinstance(d, ast.Assign) and any(isinstance(t, ast.Name) and t.id == a for t in d.targets)]
+                defs = _defs_of(a)
                 made = bool(defs) and all(
                     (isinstance(v, ast.Call) and (dotted_of(v.func) or "").split(".")[-1] in ("Value", "node", "Node"))
                     or (isinstance(v, ast.Subscript) and isinstance(v.value, ast.Attribute) and v.value.attr == "outputs" and isinstance(v.value.value, ast.Name) and any(
-                        isinstance(d2, ast.Assign) and any(isinstance(t, ast.Name) and t.id == v.value.value.id for t in d2.targets) and isinstance(d2.value, ast.Call)
-                        and (dotted_of(d2.value.func) or "").split(".")[-1] in ("node", "Node") for d2 in own_nodes(f.node)))
+                        isinstance(v2, ast.Call) and (dotted_of(v2.func) or "").split(".")[-1] in ("node", "Node") for v2 in _defs_of(v.value.value.id)))
                     for v in defs)
                 n += 1
                 if made:
